@@ -39,7 +39,7 @@ def ptypeCh : PType → String
 
 /-- actor token: a<i>, `blk` (a blocked module account), anything else = not an address -/
 def actorOf (s : String) : Option Addr :=
-  if s = "blk" then some blockedAddr else if s.startsWith "a" then some (idx! s) else none
+  if s = "blk" then some blockedAddr else if s.startsWith "a" || s.startsWith "A" then some (idx! s) else none
 
 def addrOf (s : String) : Addr := (actorOf s).getD 999999
 
